@@ -288,6 +288,15 @@ class DeepInliner(Inliner):
     def _hoist(self, ctx: FuncInfo, s: ast.stmt, taken: set[str], stack) -> list[ast.stmt]:
         """Helper calls and dict comprehensions nested in the unconditional part of a simple statement's expressions become
         `tmp = <call>` statements in front of it (so that the statement forms of the inliner apply)."""
+        if isinstance(s, (ast.For, ast.AsyncFor)):
+            # `for x in helper(args):` -> `tmp = helper(args)` + loop (the iterable is evaluated once, before the loop)
+            it = s.iter
+            if isinstance(it, ast.Call) and self._inlinable_call(ctx, it, stack) and not self._expression_helper(ctx, it):
+                callee = self._resolve(ctx, it)
+                name = self._fresh_tmp(f"value__{callee.name.strip('_')}", taken)
+                s.iter = _loc(ast.Name(id=name, ctx=ast.Load()), it)
+                return [_loc(ast.Assign(targets=[ast.Name(id=name, ctx=ast.Store())], value=it), it), s]
+            return [s]
         if not isinstance(s, (ast.Expr, ast.Assign, ast.AnnAssign, ast.Return, ast.AugAssign)):
             return [s]
         root = s.value
